@@ -270,6 +270,65 @@ def gen_cases(rng, n):
     return cases
 
 
+def edge_cases():
+    """hand-made edge cases (what the self-test mutations and the code reading turned up), run by
+    shard 0 on every seed so that their detection does not depend on the seed"""
+    W = lambda **kw: dict(kind='w', **kw)
+    out = []
+    for t in ['<!--\n>x-->y', '<!-- a\nb > c -->', '<<a>b>', '<!---->x', '<!--->x-->y', 'a<', '<', '<>', '<!-->',
+              '<!--x--><b>y</b>', '<a href=">">z', '<!-- -- -->k', '<!--\n-->', 'x<!--', '>a<']:
+        out.append(W(op='striptags', s=t))
+        out.append(W(op='plaintext', s=t, keep=True))
+        out.append(W(op='plaintext', s=t + '\n&lt;\n', keep=False))
+    for t in ['&apos;', '&quot;&lt;&gt;&amp;', '&#x;', '&#;', '&#xZ;', '&#0;', '&#1114112;', '&#55296;', '&#x110000;',
+              '&#99999999999999999999;', '&nbsp;', '&nbsp', '&AMP;', '&#65', '&#x41', '&#X41;', '&;', '&a b;',
+              '&é;', '&#٣٤;', '&hellip;&foo;&amp;amp;', '&#34;&#x22;', '&&amp;&', '&#65;&#65']:
+        out.append(W(op='stripent', s=t, keep=True))
+        out.append(W(op='stripent', s=t, keep=False))
+    dup = [['a', ''], ['a', '#'], ['b', 'x']]
+    out += [W(op='attrs_get', a=dup, n='a'), W(op='attrs_get', a=dup, n='c'), W(op='attrs_has', a=dup, n='b'),
+            W(op='attrs_idx', a=dup, i=-1), W(op='attrs_idx', a=dup, i=3), W(op='attrs_idx', a=[], i=0),
+            W(op='attrs_slice', a=dup, i=-1, j=None), W(op='attrs_slice', a=dup, i=None, j=-1),
+            W(op='attrs_slice', a=dup, i=5, j=1), W(op='attrs_slice', a=dup, i=-9, j=9),
+            W(op='attrs_substr', a=dup, n='a'), W(op='attrs_totuple', a=dup),
+            W(op='attrs_orget', a=dup, other=[['a', '1'], ['c', '2'], ['a', None]], names=[], n='a'),
+            W(op='attrs_orget', a=[['a', '0']], other=[['a', '1'], ['c', '2'], ['c', '3']], names=[], n='c'),
+            W(op='attrs_orsub', a=[['a', '0'], ['b', '1']], other=[['c', '2'], ['c', '3']], names=['a', 'c'], n='a')]
+    for t in ['{{', '{', '}', '{}', '{}a', 'a}', '{a}b}c', '{{a}}b', '', 'a{b', '{http://x}y']:
+        out.append(W(op='qname', s=t))
+    out += [W(op='ns_contains', uri='', s='s}'), W(op='ns_contains', uri='', s='}a'), W(op='ns_contains', uri='', s='a'),
+            W(op='ns_contains', uri='u', s='{u}a'), W(op='ns_get', uri='a}b', name='c'), W(op='ns_get', uri='{u', name='c'),
+            W(op='ns_get', uri='', name='a'), W(op='ns_eq', uri='', other='', as_ns=True),
+            W(op='ns_eq', uri='u', other='u', as_ns=False), W(op='ns_eq', uri='u', other='v', as_ns=True)]
+    args = [['ms', '<'], ['ms', ''], ['h', ''], ['h', '<'], ['ps', '<"'], ['p', ''], ['m', '<'], ['N'], ['i', 0], ['i', -5]]
+    for a in args:
+        out.append(W(op='esc2', arg=a, q=True))
+        out.append(W(op='esc2', arg=a, q=False))
+        out.append(W(op='add2', self='<b>', arg=a))
+        out.append(W(op='radd2', self='<b>', arg=a))
+        out.append(W(op='mod2', self='%s|', mode='one', arg=a))
+        out.append(W(op='join2', self=',', q=False, xs=[a, ['p', '"'], a], seq='gen'))
+    out += [W(op='mod2', self='%r', mode='one', arg=['p', "'"]), W(op='mod2', self='%d', mode='one', arg=['p', '1']),
+            W(op='mod2', self='%d', mode='one', arg=['i', 1]), W(op='mod2', self='%(k)s', mode='map', kv=[]),
+            W(op='mod2', self='%s%s', mode='tup', xs=[['p', '<']]), W(op='mod2', self='%', mode='one', arg=['p', 'a']),
+            W(op='mod2', self='%%', mode='tup', xs=[]), W(op='mod2', self='abc', mode='map', kv=[]),
+            W(op='mod2', self='%(k)r%(k)s', mode='map', kv=[['k', ['m', '"\'']]]),
+            W(op='mod2', self='%(a)d%(b)s', mode='map', kv=[['a', ['p', '1']]]),
+            W(op='mod2', self='%(b)s%(a)d', mode='map', kv=[['a', ['p', '1']]]),
+            W(op='mod2', self='abc', mode='one', arg=['p', 'a']), W(op='mod2', self='%s', mode='tup', xs=[['p', 'a'], ['p', 'b']])]
+    for a in [['i', -1], ['i', 0], ['i', 3], ['p', '2'], ['N'], ['m', '2']]:
+        out.append(W(op='mul2', self='a<', arg=a))
+        out.append(W(op='rmul2', self='a<', arg=a))
+    for t in ["'", '"', "'\"", '\\', '\n\r\t\x00\x7f', 'é', '', '<&>']:
+        out.append(W(op='repr', s=t))
+    for t in ['&amp;lt;', '&#34;', '&amp;#34;', '&lt', '', '&lt;&gt;&amp;&#34;', '&amp;amp;']:
+        out.append(W(op='unescm', s=t, sub=False))
+        out.append(W(op='unescm', s=t, sub=True))
+    out += [W(op='unescfn', arg=['ps', '&lt;']), W(op='unescfn', arg=['ms', '&lt;']), W(op='unescfn', arg=['p', '']),
+            W(op='unescfn', arg=['m', ''])]
+    return out
+
+
 def long_cases(rng, n):
     out = []
     for _ in range(n):
@@ -766,7 +825,7 @@ def shard(arg):
     rng = random.Random('%s/%s/C18wide' % (seed, idx))
     I = impls()
     res = Result()
-    cases = gen_cases(rng, n) + long_cases(rng, nlong)
+    cases = (edge_cases() if idx == 0 else []) + gen_cases(rng, n) + long_cases(rng, nlong)
     for c in cases:
         res.evaluations += 1
         res.count('wide:' + c['op'] + (':' + c['mode'] if 'mode' in c else ''))
